@@ -109,4 +109,15 @@ CLAIMED = {
              'against exact winding-number containment.',
         note='Partial: Jordan curve theorem not proved; 3D containment validated only. Trusted: Coq kernel, py2coq, harness.',
         technique=T_Q),
+    'C17': dict(
+        text='The accumulating-parameter loops of LineSegment2D/3D.subdivide_evenly and Arc2D.subdivide_evenly are modelled bit-exactly '
+             'in IEEE binary64 (PrimFloat) and enumerated completely over the domain the property states: for every n in 1..500 exactly '
+             'n+1 points are produced (and the unrepaired loop is proved short for n=9); the model is compared with the implementation '
+             'for all 500 n on every run. Over Q, point_at is proved to be the point at fraction t (squared distance t^2 |v|^2, ends at '
+             't=0,1) and split_with_plane is proved to return consecutive collinear pieces meeting on the plane whose direction vectors '
+             'are u v and (1-u) v. Arcs, polylines, subdivide(distances), to_polyline and arc splitting are searched.',
+        note='Trusted: Coq kernel incl. its primitive floats (Print Assumptions lists the PrimFloat/PrimInt63 primitives), hand model '
+             'FloatLoops.v + its exhaustive correspondence, py2coq, harness.',
+        technique='machine-checked Coq proof: exhaustive vm_compute over the finite stated domain with a bit-exact PrimFloat model, and '
+                  'theorems over Q about generated definitions'),
 }
